@@ -985,6 +985,8 @@ def run(prog, rep, tier):
     from ..flow import check_undefined_attrs
     rep.rule('ATTR-defined', 'every self.X read names an attribute bound somewhere in the class family')
     check_undefined_attrs(prog, rep, ['tenpy/tools/hdf5_io.py'])
+    if check_root_memo_and_config(prog, rep) < 2:
+        raise AnalysisError('HDF5-memo-save / HDF5-field(Config): anchors not found')
     from ..flow import check_state_derived_agree
     rep.rule('STATE-derived-agree', '__setstate__ derives attributes by the same expressions as '
              '__init__ where both start from the same inputs')
@@ -1293,4 +1295,54 @@ def check_independent_parts(prog, rep):
                                   '`%s` holds: for an object whose `%s` part is empty (a class '
                                   'with __slots__ and no instance dict) the `%s` part is dropped '
                                   'on load' % (this, dep[0], other, this), lp.lineno)
+    return n
+
+
+# ------------------------------------------------------------------ round-5: root memo, Config payload
+def check_root_memo_and_config(prog, rep):
+    """HDF5-memo-save (all paths): Hdf5Saver.create_group_for_obj memorizes the object on EVERY
+    path to a return (CFG must-precede), the root path '/' included: the top-level object is the
+    target of back references from its own content (cycles, parent pointers).
+    HDF5-field (Config): Config.from_hdf5 assigns the loaded dict to `.options`; save_hdf5 therefore
+    hands `self.options` itself to save_dict_content, not a converted copy (`as_dict()` turns nested
+    Config objects into plain dicts: name / unused / sharing of sub-configs are lost)."""
+    from ..cfg import CFG
+    n = 0
+    m = prog.module('tenpy/tools/hdf5_io.py')
+    f = m.func('Hdf5Saver.create_group_for_obj')
+    cfg = CFG(f)
+
+    def memo(nd):
+        st = nd.stmt
+        return st is not None and not isinstance(st, (ast.If, ast.For, ast.While, ast.Try,
+                                                      ast.With)) and any(
+            isinstance(c, ast.Call) and unparse(c.func) == 'self.memorize_save'
+            for c in ast.walk(st))
+    for r in stmts_of(f):
+        if isinstance(r, ast.Return):
+            n += 1
+            ok = cfg.dominators_like_before(r, memo)
+            rep.instance('HDF5-memo-save', {'function': 'Hdf5Saver.create_group_for_obj',
+                                            'return': key_text(r)[:50], 'memorized_before': ok})
+            if not ok:
+                rep.violation('HDF5-memo-save', m, 'Hdf5Saver.create_group_for_obj',
+                              'return-without-memo', '`%s` is reached on a path that does not call '
+                              'self.memorize_save(gr, obj): an object saved there is written again '
+                              'when its own content refers back to it (identity of the top-level '
+                              'object lost)' % key_text(r)[:50], r.lineno)
+    m2 = prog.module('tenpy/tools/params.py')
+    g = m2.func('Config.save_hdf5')
+    for c in ast.walk(g):
+        if isinstance(c, ast.Call) and isinstance(c.func, ast.Attribute) and \
+                c.func.attr == 'save_dict_content' and c.args:
+            n += 1
+            ok = unparse(c.args[0]) == 'self.options'
+            rep.instance('HDF5-field', {'class': 'Config', 'saved': unparse(c.args[0]),
+                                        'restored_into': 'options', 'same_object': ok})
+            if not ok:
+                rep.violation('HDF5-field', m2, 'Config.save_hdf5', 'payload:' + unparse(c.args[0])[:30],
+                              'Config.save_hdf5 writes `%s`, from_hdf5 puts what it reads into '
+                              '`.options`: a converted copy loses nested Config objects (they come '
+                              'back as plain dicts, not shared, without name / unused)'
+                              % unparse(c.args[0])[:40], c.lineno)
     return n
